@@ -759,7 +759,14 @@ def glue_trio() -> None:
 
             # Find the system task that matches this call
             for task in runner.system_nursery.child_tasks:  # pragma: no branch
-                if task.context is message.context:  # pragma: no branch
+                # The task's context is swapped out while it serves a reentrant
+                # from_thread.run() made by its own to_thread.run_sync() thread,
+                # so also recognize it by the message its coroutine is running.
+                task_frame = getattr(task.coro, "cr_frame", None)
+                if task.context is message.context or (
+                    task_frame is not None
+                    and task_frame.f_locals.get("self") is message
+                ):  # pragma: no branch
                     frame.hide = True
                     return task.coro
 
